@@ -417,6 +417,8 @@ type SimKnobs struct {
 	SyncPermille  int     `json:"sync_permille"`
 	PCTDepth      int     `json:"pct_depth"`
 	PCTSteps      int     `json:"pct_steps"`
+	// set by the harnesses that want the "slow task" fault (simrt.Config.EagerTimerPermille); never drawn by DrawKnobs
+	EagerTimerPermille int `json:"eager_timer_permille,omitempty"`
 }
 
 // DrawKnobs draws the scheduler knobs (swarm style: every run gets its own mix).
@@ -443,7 +445,7 @@ func DrawKnobs(rt *rapid.T, yields []int) SimKnobs {
 func (k SimKnobs) Config(keepLog bool, maxSteps int) simrt.Config {
 	return simrt.Config{Seed: k.Seed, Tape: k.Tape, YieldPermille: k.YieldPermille, StickPermille: k.StickPermille,
 		SuppressLock: k.SuppressLock, SyncPermille: k.SyncPermille, KeepLog: keepLog, MaxSteps: maxSteps,
-		PCTDepth: k.PCTDepth, PCTSteps: k.PCTSteps}
+		PCTDepth: k.PCTDepth, PCTSteps: k.PCTSteps, EagerTimerPermille: k.EagerTimerPermille}
 }
 
 // RunSim executes main as task 0 of a fresh simulation inside a synctest bubble.
